@@ -42,6 +42,7 @@ COVER = {
 # registry functions outside the translator's subset (fail-closed; they are tied by the correspondence only)
 NOT_TRANSLATED = {"ll_dirichlet": "array comparisons / helper functions on arrays (approx_log_Gamma) outside the py2coq subset",
                   "symmetric_kl": "in-place smoothing of argument copies with array slices outside the py2coq subset"}
+ROBUST_LINK = ("euclidean", "manhattan", "minkowski", "standardised_euclidean")   # also linked up to the ring laws (over R)
 DISCRETE_DEFAULT = ("categorical", "hierarchical_categorical", "ordinal", "count", "string")
 BINARY = ("hamming", "jaccard", "dice", "matching", "kulsinski", "rogerstanimoto", "russellrao", "sokalsneath", "sokalmichener", "yule")
 # upper bounds stated by the property ("within its bounds when bounded"); braycurtis only on non-negative data
@@ -594,7 +595,8 @@ def run(ctx):
     names = source_tie(ctx)
     # translation tie: Gallina regenerated from the current umap/distances.py; link theorems src_f = d_f re-checked
     fns = sorted({COVER[k][0] for k in names if COVER[k][0] not in NOT_TRANSLATED})
-    lres = link.check(ctx, "distances", {fn: "src_%s_eq" % fn for fn in fns}, NOT_TRANSLATED)
+    lres = link.check(ctx, "distances", {fn: ("src_%s_eq" % fn, "src_%s_eqR" % fn) if fn in ROBUST_LINK else "src_%s_eq" % fn for fn in fns},
+                      NOT_TRANSLATED)
     src_ready = lres.ok and not any("E_distances" in e for e in lres.errors)
     link_broken = any(b.startswith("link[") for b in ctx.broken)
     dz = srcparams.func_defaults("umap/distances.py", "symmetric_kl").get("z", 1e-11)
